@@ -77,7 +77,8 @@ impl ModelChecker {
                     events.push(McEvent::TimerFired {
                         proc,
                         timer,
-                        timer_delay: McTime::from(0.0),
+                        // remaining time until the timer fires: later timers with a smaller delay can overtake it
+                        timer_delay: McTime::from(event.time - sim.time()),
                     });
                 }
             });
